@@ -704,8 +704,6 @@ def sparse_correlation(ind1, data1, ind2, data2, n_features):
 
     if ind1.shape[0] == 0 and ind2.shape[0] == 0:
         return 0.0
-    elif ind1.shape[0] == 0 or ind2.shape[0] == 0:
-        return 1.0
 
     for i in range(data1.shape[0]):
         mu_x += data1[i]
